@@ -2,7 +2,7 @@
 from __future__ import annotations
 
 from .. import pipegen
-from ..coqlit import Err, Ok, cbool, clist, cstr
+from ..coqlit import Err, Ok, cbool, clist, cnat, cstr
 from ..symfuncs import canon
 from . import c02
 
@@ -21,7 +21,9 @@ RULE = ("the pipelines of C02 (diamonds, tuple-output nodes, shared parameters, 
         "and after two evaluate_lazy calls, task graph (nodes relabelled in allocation order) + functions / tuple "
         "members returning None and diamonds over them + SEQUENCES of 2-3 requests to one lazy pipeline object "
         "(inside one construct_dag() block, or outside with cache=True functions; same / changed root values, "
-        "surplus / missing keywords, evaluation in between); non-trivial = "
+        "surplus / missing keywords, evaluation in between; keyword values that are deferred results of earlier "
+        "requests - bare, inside lists / tuples, nested two levels deep - with the recorded edges compared to the "
+        "dependencies read off the stored arguments of every node); non-trivial = "
         ">= 2 needed functions or a tuple output; distinct by (pipeline, output, keywords, flags)")
 ASSUMPTIONS = list(c02.ASSUMPTIONS) + ["LRU cache of a lazy pipeline below its max_size (no eviction)"]
 TRUSTED = ["Model/Lazy.v mirrors pipefunc/lazy.py and the lazy branches of _base.py by hand; tie = per-run "
@@ -30,7 +32,17 @@ TRUSTED = ["Model/Lazy.v mirrors pipefunc/lazy.py and the lazy branches of _base
 
 def emit_case(c) -> str:
     if c.get("kind") == "seq":
-        reqs = clist([f"({cstr(o)}, {pipegen.alist_lit(kw)}, {cbool(full)}, {cbool(now)})" for o, kw, full, now in c["reqs"]])
+        def kv(v):
+            if isinstance(v, dict) and "res" in v:
+                return f"(KRes {cnat(v['res'])})"
+            if isinstance(v, dict):
+                return f"(KList {cbool(bool(v.get('tuple')))} " + clist([kv(x) for x in v["list"]]) + ")"
+            return f"(KStr {cstr(canon(v))})"
+
+        def kwl(kw):
+            return clist([f"({cstr(k)}, {kv(v)})" for k, v in kw])
+
+        reqs = clist([f"({cstr(o)}, {kwl(kw)}, {cbool(full)}, {cbool(now)})" for o, kw, full, now in c["reqs"]])
         return f"(CSeq {pipegen.pipeline_lit(c['p'])} {cbool(c['dag'])} {reqs})"
     return (f"(CLazy {pipegen.pipeline_lit(c['p'])} {cstr(c['o'])} {pipegen.alist_lit(c['kw'])} "
             f"{cbool(c['full'])} {cbool(c['dag'])})")
@@ -42,7 +54,9 @@ def _val(x):
     return canon(x)
 
 
-def _graph_obs(tg):
+def _graph_obs(tg, with_deps=False):
+    from pipefunc.lazy import _LazyFunction
+
     ids = sorted(tg.graph.nodes)
     pos = {i: k for k, i in enumerate(ids)}
     labels = []
@@ -50,7 +64,31 @@ def _graph_obs(tg):
         lf = tg.mapping[i]
         name = getattr(lf.func, "__name__", None)
         labels.append(name if name is not None and not lf.args else "pick:" + str(lf.args[1]))
-    return [labels, sorted([pos[a], pos[b]] for a, b in tg.graph.edges)]
+    g = [labels, sorted([pos[a], pos[b]] for a, b in tg.graph.edges)]
+    if with_deps:
+        # the producer-consumer dependencies of a node, read off the arguments it stores: the deferred objects
+        # one container level deep (what add_edge is meant to record) and at any depth (what evaluate_lazy evaluates)
+        def walk(v, depth, maxd, acc):
+            if isinstance(v, _LazyFunction):
+                acc.add(pos[v._id])
+            elif isinstance(v, (list, tuple, set)) and depth < maxd:
+                for x in v:
+                    walk(x, depth + 1, maxd, acc)
+            elif isinstance(v, dict) and depth < maxd:
+                for x in v.values():
+                    walk(x, depth + 1, maxd, acc)
+
+        d1, dall = [], []
+        for i in ids:
+            lf = tg.mapping[i]
+            a1, a2 = set(), set()
+            for v in [*lf.args, *lf.kwargs.values()]:
+                walk(v, 0, 1, a1)
+                walk(v, 0, 10**6, a2)
+            d1.append(sorted(a1))
+            dall.append(sorted(a2))
+        g += [d1, dall]
+    return g
 
 
 def _run_seq(c):
@@ -66,9 +104,19 @@ def _run_seq(c):
     pl, log = b.pipeline, b.log
     results, tg = [], None
     with (construct_dag() if c["dag"] else contextlib.nullcontext()) as tg:
+        def mat(v):
+            if isinstance(v, dict) and "res" in v:
+                j = v["res"]
+                ok = j < len(results) and not isinstance(results[j], Err) and not c["reqs"][j][2]
+                return results[j][1] if ok else "none"
+            if isinstance(v, dict):
+                items = [mat(x) for x in v["list"]]
+                return tuple(items) if v.get("tuple") else items
+            return v
+
         for o, kw, full, now in c["reqs"]:
             try:
-                r = pl.run(o, full_output=full, kwargs=dict(kw))
+                r = pl.run(o, full_output=full, kwargs={k: mat(v) for k, v in kw})
             except Exception as e:  # noqa: BLE001
                 results.append(Err(e))
                 continue
@@ -89,7 +137,7 @@ def _run_seq(c):
         except Exception as e:  # noqa: BLE001
             values.append(Err(e))
     statuses = [r if isinstance(r, Err) else "ok" for r in results]
-    return [statuses, log0, values, log.read(), _graph_obs(tg) if tg is not None else None]
+    return [statuses, log0, values, log.read(), _graph_obs(tg, with_deps=True) if tg is not None else None]
 
 
 def run_impl(c):
@@ -216,6 +264,21 @@ def _seq_cases(rng, pd, n):
                 kw.append(["junk", "v_junk"])
             elif r < 0.24 and kw:
                 kw.pop(rng.randrange(len(kw)))
+            if j > 0 and kw and rng.random() < 0.6:
+                # keyword values that are deferred results of earlier requests: bare, in a list / tuple, nested deeper
+                for _k in range(rng.choice([1, 1, 2])):
+                    slot = rng.randrange(len(kw))
+                    ref = {"res": rng.randrange(j)}
+                    r2 = rng.random()
+                    if r2 < 0.25:
+                        val = ref
+                    elif r2 < 0.85:
+                        items = [ref] + [rng.choice(["k", {"res": rng.randrange(j)}]) for _x in range(rng.randint(0, 2))]
+                        rng.shuffle(items)
+                        val = {"list": items, "tuple": rng.random() < 0.4}
+                    else:
+                        val = {"list": [{"list": [ref], "tuple": rng.random() < 0.5}, "k"], "tuple": False}
+                    kw[slot][1] = val
             rng.shuffle(kw)
             reqs.append([o, kw, rng.random() < 0.2, rng.random() < 0.3])
         cases.append({"kind": "seq", "p": q, "dag": dag, "reqs": reqs})
@@ -239,6 +302,15 @@ def distribution(c):
 
 
 def finding_id(c, impl_obs, kind):
+    """c18-nested-container-dependency-not-recorded: the recorded edges are exactly the dependencies one container
+    level deep, and some node has a dependency nested deeper (evaluate_lazy evaluates it, add_edge does not see it)."""
+    if c.get("kind") == "seq" and c.get("dag") and isinstance(impl_obs, list) and len(impl_obs) == 5:
+        g = impl_obs[4]
+        if isinstance(g, list) and len(g) == 4:
+            _labels, edges, d1, dall = g
+            want1 = sorted([d, i] for i, ds in enumerate(d1) for d in ds)
+            if sorted(edges) == want1 and d1 != dall:
+                return "c18-nested-container-dependency-not-recorded"
     return None
 
 
